@@ -395,6 +395,9 @@ class Gen(object):
                 if a is not None and a not in [dec(x) for x, _ in rules]:
                     rules.append([enc(a), r.choice(["domain", "path1", "path2", "subdomain"])])
             self.created_prefixes = []
+            if r.random() < 0.1:
+                # a request that fails half-way: the new default rule does not compile
+                return {"op": "clear", "default": "broken", "rules": None}
             pending = None
             if r.random() < 0.15:
                 # clear() arrives while a crawl-batch request is still unfinished
